@@ -7,6 +7,7 @@
   full emitter); move in → created + one synthetic created event per descendant; nothing for anything outside.
 -/
 import WD.Proofs.Pipeline.Theorems
+import WD.Proofs.Pipeline.FlatSpec
 namespace WD.C03
 open WD WD.Pipe
 
@@ -19,6 +20,14 @@ theorem contract_refined (fs0 : FS) (hwf : fs0.WF) (full : Bool) (ops : List Op)
     ((Sys.start fs0 true full).run ops).2 = contractRun fs0 true full ops := by
   obtain ⟨inv, hs, hc, h4, h5⟩ := start_rec fs0 hwf full
   have := (run_rec _ ops inv hs hc hv).1
+  rw [h4, h5] at this; exact this
+
+/-- the same for a non-recursive watch (the contract then only ever concerns the root and its direct children) -/
+theorem contract_refined_nonrecursive (fs0 : FS) (hwf : fs0.WF) (full : Bool) (ops : List Op)
+    (hv : allValid (Sys.start fs0 false full) ops = true) :
+    ((Sys.start fs0 false full).run ops).2 = contractRun fs0 false full ops := by
+  obtain ⟨inv, hs, hc, h4, h5⟩ := start_flat fs0 hwf full
+  have := (run_flat _ ops inv hs hc hv).1
   rw [h4, h5] at this; exact this
 
 /-- the same, stated for one more operation after any history -/
